@@ -20,8 +20,16 @@ mod c02;
 mod c03;
 #[cfg(all(kani, feature = "c04"))]
 mod c04;
+#[cfg(all(kani, feature = "c04_apply"))]
+mod c04_apply;
+#[cfg(all(kani, feature = "c04_sub"))]
+mod c04_sub;
 #[cfg(all(kani, feature = "c05"))]
 mod c05;
+#[cfg(all(kani, feature = "c05_apply"))]
+mod c05_apply;
+#[cfg(all(kani, feature = "c05_pos"))]
+mod c05_pos;
 #[cfg(all(kani, feature = "c06"))]
 mod c06;
 #[cfg(all(kani, feature = "c07"))]
